@@ -52,6 +52,8 @@ def check_csvdump(proc, dump, chain, coin, start=0, end=None, sizes=None, mask_a
     return bad
 
 
+import re as _re
+_REC_END = _re.compile(r"\n(?=height: \d+ txid: [0-9a-f]{64} data: |\n*$)")
 UNSPENT_HEADER = "txid;indexOut;height;value;address"
 BALANCES_HEADER = "address;balance"
 
@@ -199,12 +201,10 @@ def check_opreturn(proc, chain, coin, start=0, end=None, prefix="opreturn", exp=
                     return False
                 # line present with unpinned text: it ends at one of the following newlines (the text itself may
                 # contain newlines); try them in order
-                j = pos + len(pre) - 1
-                for _ in range(64):
-                    j = text.find("\n", j + 1)
-                    if j < 0:
-                        return False
-                    if match(i + 1, j + 1):
+                # candidate ends: a newline that is followed by another record (canonical prefix) or by the end of the
+                # output -- an unpinned payload may itself contain any number of newlines
+                for m in _REC_END.finditer(text, pos + len(pre)):
+                    if match(i + 1, m.start() + 1):
                         return True
                 return False
             want = pre + txt + "\n"
